@@ -2,7 +2,7 @@
 import copy
 import itertools
 
-from props.c02 import gen_ver, mutate_ver, parse_ver, render_ver, respell
+from props.c02 import SLOT_POOL, gen_slot_name, gen_ver, mutate_ver, near_slot_name, parse_ver, render_ver, respell
 
 PID = "C04"
 LEAN_MODULES = ["Pkgcore.Props.C04"]
@@ -42,9 +42,8 @@ RULE = ("(atom, package) pairs over 2 categories x 2 names; versions from a pool
 CATS = ["a", "b"]
 PKGS = ["b", "bb"]
 OPS = ["", "<", "<=", "=", "=*", ">=", ">", "~"]
-SLOTS = ["0", "1", "1.2"]
 FLAGS = ["x", "y", "z", "w"]
-REPOS = ["", "gentoo", "other"]
+REPOS = ["", "gentoo", "other", "Gentoo"]
 REVS = ["", "", "", "0", "1", "01", "2", "10"]
 VPOOL = ["1", "01", "1.0", "1.00", "1.0.0", "1.1", "1.10", "1.01", "1.010", "10", "1a", "1b", "1.0a", "1_p", "1_p0", "1_p1", "1_pre", "1_pre1",
          "1_rc1_p", "1_p_p", "1_alpha", "2", "0.9", "1.2.3", "1.2.30", "1.2.3.4"]
@@ -97,9 +96,9 @@ def gen_atom(rng):
         a["blocks"] = a["strong"] = True
     k = rng.random()
     if k < 0.4:
-        a["slot"] = rng.choice(SLOTS)
+        a["slot"] = gen_slot_name(rng)
         if rng.random() < 0.5:
-            a["subslot"] = rng.choice(SLOTS)
+            a["subslot"] = gen_slot_name(rng)
         if rng.random() < 0.2:
             a["slotop"] = "="
     elif k < 0.5:
@@ -135,9 +134,9 @@ def gen_pkg(rng):
     if rng.random() < 0.08:
         use.append(rng.choice(FLAGS))          # pathological: enabled flag outside IUSE
         use = sorted(set(use))
-    slot = rng.choice(SLOTS)
+    slot = gen_slot_name(rng)
     return {"cat": rng.choice(CATS), "pkg": rng.choice(PKGS), "ver": gen_version(rng), "rev": rng.choice(REVS), "slot": slot,
-            "subslot": rng.choice(SLOTS + [slot]), "repo": rng.choice(REPOS), "iuse": iuse, "use": use}
+            "subslot": slot if rng.random() < 0.3 else gen_slot_name(rng), "repo": rng.choice(REPOS), "iuse": iuse, "use": use}
 
 
 def pkg_for(rng, a):
@@ -157,10 +156,14 @@ def pkg_for(rng, a):
             p["ver"], p["rev"] = mutate_ver(rng, a["ver"]), rng.choice([a["rev"]] + REVS)
         elif k < 0.9:
             p["ver"], p["rev"] = copy.deepcopy(a["ver"]), rng.choice(REVS + ["3", "11"])
-    if a["slot"] and rng.random() < 0.75:
-        p["slot"] = a["slot"]
-    if a["subslot"] and rng.random() < 0.75:
-        p["subslot"] = a["subslot"]
+    # slot / sub-slot: the atom's own name, a name close to it (other letter case, numeric neighbour, one component more or less, ...), or unrelated
+    for f in ("slot", "subslot"):
+        if a[f]:
+            k = rng.random()
+            if k < 0.7:
+                p[f] = a[f]
+            elif k < 0.9:
+                p[f] = near_slot_name(rng, a[f])
     if a["repo"] and rng.random() < 0.75:
         p["repo"] = a["repo"]
     if a["use"] and rng.random() < 0.7:
@@ -242,8 +245,15 @@ CORPUS = [
     # slots, sub-slots, operators, repos, blockers
     (A(slot="0"), P(slot="0")), (A(slot="0", subslot="1"), P(slot="0", subslot="1")), (A(slot="0", subslot="1"), P(slot="0")), (A(slot="0", slotop="="), P(slot="0")),
     (A(slotop="="), P(slot="3")), (A(slotop="*"), P(slot="3")), (A(slot="1"), P(slot="0")), (A(repo="gentoo"), P(repo="gentoo")), (A(repo="other"), P(repo="gentoo")),
+    (A(slot="stable"), P(slot="Stable")), (A(slot="0", subslot="2a"), P(slot="0", subslot="2A")), (A(slot="1"), P(slot="01")), (A(slot="1.2"), P(slot="1")),
+    (A(slot="1"), P(slot="1.2")), (A(slot="0", slotop="="), P(slot="00")),
+    (A(repo="gentoo"), P(repo="Gentoo")), (A(slot="5.1-LTS", blocks=True), P(slot="5.1-lts")),
     (A(repo="gentoo"), P()), (A(blocks=True), P()), (A(blocks=True, strong=True), P()), (A("=*", "1", blocks=True), P("10")), (A(), P(pkg="bb")), (A(), P(cat="b")),
 ]
+
+
+SLOT_SHAPES = [dict(), dict(blocks=True), dict(blocks=True, strong=True), dict(slotop="="), dict(repo="gentoo"), dict(op="=", ver="1"),
+               dict(op=">=", ver="0.9", rev="1", use=["-x(-)"])]
 
 
 def run(ctx):
@@ -282,6 +292,15 @@ def run(ctx):
             cases.append((a, p, "exhaustive-glob"))
         ctx.extra["exhaustive_glob_pairs"] = len(glob_atoms) * len(plain)
 
+    # bounded universe of slot / sub-slot names: every (atom name, package name) pair, everything else satisfied
+    shapes = SLOT_SHAPES if not ctx.quick() else [SLOT_SHAPES[rng.randrange(len(SLOT_SHAPES))]]
+    for shape in shapes:
+        for n, m in itertools.product(SLOT_POOL, SLOT_POOL):
+            cases.append((A(slot=n, **shape), P(slot=m, subslot=rng.choice([m, n, "0"]), repo="gentoo"), "slot-universe"))
+            cases.append((A(slot="0", subslot=n, **shape), P(slot="0", subslot=m, repo="gentoo"), "slot-universe"))
+            if not ctx.quick():
+                cases.append((A(slot=n, subslot=n, **shape), P(slot=m, subslot=n, repo="gentoo"), "slot-universe"))
+                cases.append((A(slot=n, subslot=n, **shape), P(slot=n, subslot=m, repo="gentoo"), "slot-universe"))
     reqs = [{"cmd": "c04.match", "atom": a, "pkg": p} for a, p, _ in cases]
     repos = {r: FakeRepo(repo_id=r) for r in REPOS}
     # atoms are kept alive for a while: restrictions are instance-cached by argument equality, so what an atom matches must not depend on which other
